@@ -876,7 +876,19 @@ def reduce_minmax(a, which, axis=None):
         raise EngineError("min/max with axis")
     shape = a.shape
     if not all(dim_conc(d) for d in shape):
-        raise EngineError("min/max over symbolic axis")
+        # ASSUMED relational contract of max/min over a symbolic axis (1-D): the result M is attained at a witness index
+        # and bounds every element; the bound is a quantified fact (cur().qfacts) that contracts instantiate
+        if len(shape) != 1:
+            raise EngineError("min/max over symbolic axis of an nd array")
+        n = shape[0]
+        r = a.reader()
+        cur().require(sv.cmp(">=", n, 1), f"{which}-of-nonempty")
+        w = sv.fresh_int("argm")
+        M = r((w,))
+        st = cur()
+        st.assume(sv.and_(sv.cmp(">=", w, 0), sv.cmp("<", w, n)))
+        st.qfacts.append((which, n, r, M, w))
+        return M
     r = a.reader()
     acc = None
     for idx in itertools.product(*[range(d) for d in shape]):
